@@ -4,7 +4,7 @@ from . import cachemodel as M
 ID = "C07"
 LEVEL = "exploration"
 RULE = ("Cases: capacity 1..6, key type int/str/tuple, a history of <=40 operations from store, lookup (hit and miss), "
-        "delete, membership, len, keys(), values(), items(), get, pop, popitem, clear, update, setdefault, == ; after every "
+        "delete, membership, len, keys(), values(), items(), get, pop, popitem, clear, update, setdefault, == , and (a sixth of the histories) up to three runs of 3..1025 lookups of one key; after every "
         "operation content, size<=max_size, KeyError parity and iteration order are compared with a candidate-set "
         "reference model (membership may or may not count as a use; any order is admissible after values/items/==). "
         "Every call runs under a line-count fuel, so non-termination is a verdict. E5: all histories up to length 3 (quick) / 4 "
@@ -13,7 +13,7 @@ RULE = ("Cases: capacity 1..6, key type int/str/tuple, a history of <=40 operati
         "Distinct = distinct case JSON.")
 EXPLANATION = "exhaustive sub-domain: short histories over 3 keys for capacities 1 and 2 (see rule)"
 ASSUMPTIONS = ["keys are hashable ints/strings/tuples; values are ints"]
-FLOORS = {"eviction": (0.209, "hist>=10"), "view-op>=2": (0.24, "hist>=10")}
+FLOORS = {"eviction": (0.209, "hist>=10"), "view-op>=2": (0.24, "hist>=10"), "burst>=255": (0.002, None)}
 SHARDS = {"quick": 12, "thorough": 14}
 
 
